@@ -47,6 +47,10 @@ POOL_A = [
     '',
     '@w: 3px;\n.w1{width:@w*2}\n.w2{.w1;}\n',
     '.m(@x: 4px){right:@x}\n.n{.m;}\n.o{.m(9px);}\n',
+    # legal files that end with the lexer in a pushed state or with its flags set (a lexer shared between files would carry them over)
+    '@sel: ~".col-3";\n@{sel}{float:left}\n',
+    '.e1{width:~"calc(1px + 2px)"}\n@cls: ~".c-x";\n@{cls}{top:0}',
+    '.s1{content:"a;b}c"; color:red}\n.s2{background:url("x.png")}\n',
 ]
 POOL_B = [            # need the definitions of inc1.less
     '.b1{top:@iv}\n',
@@ -61,7 +65,7 @@ LIBOPT = {'none': dict(minify=False, spaces=2), 'x': dict(minify=True, spaces=2)
           't': dict(minify=False, tabs=True, spaces=2), 's1': dict(minify=False, spaces=1), 's4': dict(minify=False, spaces=4)}
 NAMES = ['a.less', 'b.less', 'c.d.less', 'x.min.less', 'z9.less']
 OTHER = ['notes.txt', 'd.css', '.hidden.less', 'UP.LESS', 'less', 'q.lessx']
-DIRS = ['', 'sub', 'sub/deep', 'two', '.git']
+DIRS = ['', 'sub', 'sub/deep', 'two', '.git', 'sub/sub', 'two/two', 'two/two/two']
 
 
 # --------------------------------------------------------------------------------------------- real side
